@@ -281,7 +281,7 @@ def construct(b):
 
 
 DERIVS = ('iloc', 'drop', 'roll', 'sort', 'relabel', 'union', 'intersection', 'difference', 'level_add', 'level_drop', 'level_drop_inner',
-          'flat', 'astype', 'copy', 'togo', 'tostatic', 'pickle', 'rename', 'append', 'append_dup', 'extend', 'loc_list', 'rehierarch')
+          'flat', 'astype', 'copy', 'togo', 'tostatic', 'pickle', 'rename', 'append', 'append_dup', 'extend', 'loc_list', 'rehierarch', 'iloc_rot', 'loc_rot', 'roll')
 
 
 @st.composite
@@ -364,16 +364,22 @@ def _check(case):
         new_model = None
         expect_err = False
         r = None
-        if d == 'iloc' or d == 'loc_list':
+        if d in ('iloc', 'loc_list', 'iloc_rot', 'loc_rot'):
             pos = [p for p in range(n) if (dv['mask'] >> p) & 1]
             if dv['flag']:
                 pos = pos[::-1]
+            if d.endswith('_rot'):
+                # every position, rotated (for a hierarchy this revisits the outer label the rotation splits), optionally thinned
+                kk = dv['k'] % n if n else 0
+                pos = [(p + kk) % n for p in range(n)]
+                if dv['flag'] and n > 2:
+                    pos = [p for q, p in enumerate(pos) if q != dv['i'] % n]
             new_model = [model[p] for p in pos]
             if depth > 1 and not gen.is_tree_order(new_model):
                 expect_err = True
             if depth > 1 and not pos:
                 continue
-            if d == 'iloc':
+            if d in ('iloc', 'iloc_rot'):
                 r = lib(lambda: ix.iloc[pos])
             else:
                 r = lib(lambda: ix.loc[[model[p] for p in pos]])
